@@ -90,6 +90,24 @@ func opCreate(n string, chunks []string) hx.Sx {
 	}
 	return sx(hx.L("create", hx.S(n), hx.L(cs...)))
 }
+
+var schedTiny = []int{0, 1, 7}
+var schedMedium = []int{511, 512, 513, 4095, 4096, 4097}
+var schedLarge = []int{32767, 32768, 32769, 65536, 100000}
+var schedSizes = append(append(append([]int{}, schedTiny...), schedMedium...), schedLarge...)
+
+// opCreateSched: one Write per size; the k-th Write carries the pattern bytes at
+// the offsets it should end up at, so the stored body must be patByte(0..total).
+func opCreateSched(n string, sizes []int) hx.Sx {
+	cs := []string{}
+	off := 0
+	for _, sz := range sizes {
+		cs = append(cs, hx.L("p", hx.I(int64(off)), hx.I(int64(sz))))
+		off += sz
+	}
+	return sx(hx.L("create", hx.S(n), hx.L(cs...)))
+}
+
 func opRm(n string) hx.Sx    { return sx(hx.L("rm", hx.S(n))) }
 func opMkdir(n string) hx.Sx { return sx(hx.L("mkdir", hx.S(n))) }
 func opCopy(n, d string, nr, no bool) hx.Sx {
@@ -320,6 +338,90 @@ func generate(out chan<- caseIn) {
 		emit("t", ep, be, opRm(n))
 		emit("t", ep, be, opCopy(n, "copy-"+n, false, true))
 		emit("t", ep, be, opMove(n, "d/"+n, false))
+	}
+
+	// ---- part 3b: write schedules of Create: sequences of Write calls of mixed sizes
+	// carrying a position-dependent pattern, so that bytes reordered, duplicated or
+	// lost between Client.Create's writer and the backend show in the stored content
+	si := 0
+	sched := func(sizes ...int) {
+		si++
+		ep := endpoints[si%len(endpoints)]
+		name := "sched-" + hostile[si%len(hostile)]
+		op := opCreateSched(name, sizes)
+		emit("i", ep, memBackend(false, "(create (ok 1))"), op)
+		if thorough || si%3 == 0 {
+			emit("i", ep, local(wrap(ep, davx.Dir("keep", fileAt("k", 1)))), op)
+		}
+		if (thorough && si%3 == 0) || si%7 == 0 {
+			emit("t", ep, local(wrap(ep, davx.Dir("keep", fileAt("k", 1)))), op)
+		}
+	}
+	big := func(v int) bool { return v > 32769 }
+	for _, a := range schedSizes {
+		sched(a)
+		for _, b := range schedSizes {
+			sched(a, b) // small-then-large, large-then-small, and equals
+			if thorough || !(big(a) || big(b)) {
+				sched(a, b, a) // alternating
+			}
+			if thorough {
+				sched(b, a, a, b)
+				if !(big(a) && big(b)) {
+					sched(1, a, b, 7, b, a)
+				}
+			}
+		}
+	}
+	for _, a := range schedLarge {
+		if !thorough && a != 32768 && a != 65536 {
+			continue
+		}
+		for _, b := range schedTiny {
+			sched(b, a, b, a, b)
+			sched(a, b, b, a)
+		}
+		for _, b := range schedMedium {
+			sched(b, b, a, b) // several buffered writes, then a large one
+			sched(a, b, a, b, a)
+		}
+	}
+	nSched := 200
+	if thorough {
+		nSched = 600
+	}
+	for i := 0; i < nSched; i++ {
+		n := 2 + rng.Intn(7)
+		sizes := make([]int, n)
+		total := 0
+		for j := range sizes {
+			var v int
+			switch rng.Intn(4) {
+			case 0:
+				v = schedTiny[rng.Intn(len(schedTiny))]
+			case 1:
+				v = schedMedium[rng.Intn(len(schedMedium))]
+			case 2:
+				v = schedLarge[rng.Intn(len(schedLarge))]
+				if !thorough && big(v) && rng.Chance(3, 4) {
+					v = 32768
+				}
+			default:
+				v = rng.Intn(9000)
+			}
+			if rng.Chance(1, 3) {
+				v += rng.Intn(5) - 2
+			}
+			if v < 0 {
+				v = 0
+			}
+			if total+v > 400000 {
+				v = 0
+			}
+			total += v
+			sizes[j] = v
+		}
+		sched(sizes...)
 	}
 
 	// ---- part 4: seeded random cases
